@@ -265,7 +265,7 @@ func checkC05(c *km.Ctx) {
 	// one critical section (C14's obligations on the gate, as this property's own)
 	if r.Remap == nil {
 		r.Remap = func(rule, fn, construct string) (string, bool) {
-			if rule == "R-C14-3" && (strings.Contains(construct, "one critical section") || construct == "last-check time updated" || construct == "spacing constant") {
+			if rule == "R-C14-3" && (strings.Contains(construct, "one critical section") || strings.HasPrefix(construct, "last-check time updated") || construct == "spacing constant") {
 				return "R-C05-4", true
 			}
 			return "", false
